@@ -149,4 +149,17 @@ CLAIMS = {
         "call recorders, describe_state() as the victim's state.",
         "technique": TECH_S,
     },
+    "C04": {
+        "text": "Self-composition on the real environment inside one symbolic path: (a) a used environment (every action "
+        "of the map as dirtying prefix, then reset(seed)) and a freshly constructed one take the same suffix; (b) "
+        "environment A alone vs A with a differently configured environment B constructed / stepped / reset / closed "
+        "at a solver-chosen interleaving position; compared step by step: observation, reward, truncation, every "
+        "agent's action and response status, identifier-normalised Simulation.describe_state(). (c) identity walk "
+        "over the object graphs of two games built from the same scenario: no shared mutable container or component.",
+        "note": "Bounds: k=1 (quick) / 2 (thorough) dirtying actions, 2-step suffix; generated scenarios only (the "
+        "episode-list scheduler with on-disk variants is not covered). All inputs are finite choices - the solver's "
+        "role is the exhaustive enumeration. One recorded finding (class-level NMNE configuration) is excluded by its "
+        "predicate and re-demonstrated on every run. Trusted: CrossHair/z3, identifier normalisation.",
+        "technique": TECH_S,
+    },
 }
